@@ -2706,7 +2706,7 @@ func (s *ShowMeasurementsStatement) String() string {
 	var buf strings.Builder
 	_, _ = buf.WriteString("SHOW MEASUREMENTS")
 
-	if s.Database != "" || s.WildcardDatabase {
+	if s.Database != "" || s.WildcardDatabase || s.RetentionPolicy != "" || s.WildcardRetentionPolicy {
 		_, _ = buf.WriteString(" ON ")
 		if s.WildcardDatabase {
 			_, _ = buf.WriteString("*")
